@@ -106,6 +106,12 @@ def floordiv (a b : Int) : PyM Int := if b = 0 then throw .zeroDivision else pur
 /-- `a % b` (sign of the divisor) -/
 def mod (a b : Int) : PyM Int := if b = 0 then throw .zeroDivision else pure (Int.fmod a b)
 
+/-- `a // n` for a literal divisor `n ≠ 0` (no `ZeroDivisionError` possible) -/
+def floordivL (a n : Int) : Int := Int.fdiv a n
+
+/-- `a % n` for a literal divisor `n ≠ 0` -/
+def modL (a n : Int) : Int := Int.fmod a n
+
 /-- `abs(a)` -/
 def abs (a : Int) : Int := Int.ofNat a.natAbs
 
@@ -215,6 +221,10 @@ def range3 (a b s : Int) : PyM (List Int) :=
   if s = 0 then throw .value
   else if 0 < s then pure ((List.range ((b - a + s - 1) / s).toNat).map (fun k => a + s * Int.ofNat k))
   else pure ((List.range ((a - b + (-s) - 1) / (-s)).toNat).map (fun k => a + s * Int.ofNat k))
+
+/-- `range(a, b, s)` for a literal step `s > 0`: `⌈(b-a)/s⌉` items -/
+def range3p (a b : Int) (s : Nat) : List Int :=
+  (List.range ((b - a + s - 1) / s).toNat).map (fun k => a + s * Int.ofNat k)
 
 /-- `int.from_bytes(b, byteorder="big")` (unsigned) -/
 def fromBytesBig (l : List Nat) : Int := Int.ofNat (l.foldl (fun a x => a * 256 + x) 0)
@@ -432,6 +442,25 @@ theorem assert_bind {α : Type} (c : Bool) (k : Unit → PyM α) :
     slice l none (some (no_index (@OfNat.ofNat Int n _))) = l.take n := slice_none_ofNat l n
 @[simp] theorem slice_lit_none {α : Type} (l : List α) (n : Nat) :
     slice l (some (no_index (@OfNat.ofNat Int n _))) none = l.drop n := slice_ofNat_none l n
+
+/-! bit operations with a literal right operand -/
+@[simp] theorem band_lit (m n : Nat) : band (m : Int) (no_index (@OfNat.ofNat Int n _)) = ((m &&& n : Nat) : Int) := rfl
+@[simp] theorem bor_lit (m n : Nat) : bor (m : Int) (no_index (@OfNat.ofNat Int n _)) = ((m ||| n : Nat) : Int) := rfl
+@[simp] theorem bxor_lit (m n : Nat) : bxor (m : Int) (no_index (@OfNat.ofNat Int n _)) = ((m ^^^ n : Nat) : Int) := rfl
+@[simp] theorem shrN_ofNat (m k : Nat) : shrN (m : Int) k = ((m / 2 ^ k : Nat) : Int) := by
+  unfold shrN; norm_cast
+@[simp] theorem shlN_ofNat (m k : Nat) : shlN (m : Int) k = ((m * 2 ^ k : Nat) : Int) := by
+  unfold shlN; norm_cast
+@[simp] theorem modL_ofNat (m n : Nat) : modL (m : Int) (no_index (@OfNat.ofNat Int n _)) = ((m % n : Nat) : Int) := by
+  unfold modL; exact (Int.ofNat_fmod m n).symm
+
+/-- a `for` loop whose body cannot raise is a fold -/
+theorem forEach_pure {α σ : Type} (f : α → σ → PyM σ) (g : σ → α → σ) (h : ∀ x s, f x s = .ok (g s x)) :
+    ∀ (l : List α) (s : σ), forEach l s f = .ok (l.foldl g s) := by
+  intro l
+  induction l with
+  | nil => intro s; rfl
+  | cons x xs ih => intro s; rw [forEach_cons, h, ok_bind, ih]; rfl
 
 @[simp] theorem toBytes_nil : toBytes [] = .ok [] := rfl
 @[simp] theorem toBytes_cons_ofNat (n : Nat) (l : List Int) :
